@@ -38,10 +38,16 @@ CLAIMS = [
                 "permitted error and then the map is unchanged; seq_refines lifts this to every finite sequence by induction. The model "
                 "is an exact replica (BFS slot search, path validation, move_bucket, lazy per-stripe migration, rebuild) and K2 compares "
                 "its full state (every cell, counters, flags, old array, lock arrays, resize counter) with the real table after every "
-                "operation, over S in {1,2,3,4,8} x stripe limit {2,4,8} (hook) x 3 key kinds x 6 hash families incl. adversarial ones.",
+                "operation, over S in {1,2,3,4,8} x stripe limit {2,4,8} (hook) x 3 key kinds x 6 hash families incl. adversarial ones. "
+                "Helper threads (Props/C02Par.lean): parallel_exec's chunks partition the range (splitWork_partition; K1b compares the real "
+                "private member with splitWork), different stripes migrate independently (rehashLock_comm) and hence EVERY order in which the "
+                "helpers process their stripes yields the table of the sequential loop (migrate_any_order, migrate_with_workers); K2 streams "
+                "configure 1-5 helper threads for batch migrations.",
         "design_ref": "DESIGN.md 6/C02, 12",
-        "note": "Trusted: Lean kernel; K2 harness/driver/reference-map oracle; helper threads (max_num_worker_threads>0) not modelled; the real "
-                "kMaxNumLocks=65536 configuration is exercised only in the thorough tier; C++ object model, allocator and std library are modelled, not verified.",
+        "note": "Trusted: Lean kernel; K2 harness/driver/reference-map oracle; helper threads are modelled at the granularity of whole rehash_lock "
+                "calls (their bodies touch disjoint memory; rebuilds with helper threads are compared by contents only, their layout is timing dependent); "
+                "stripe limits are lowered through the hook (the real kMaxNumLocks=65536 appears in the arithmetic theorems and K1, not in K2 streams); "
+                "C++ object model, allocator and std library are modelled, not verified.",
     },
     {
         "property_id": "C05",
@@ -129,7 +135,11 @@ CLAIMS = [
                 "order lemma and proto_deadlock_free show that no set of threads can be blocked on each other; a returning call holds no lock; an active "
                 "section holds every lock of the current array, arrays appended by it are born locked, and its unlock releases everything. K3: a "
                 "schedule with no runnable thread, a lock still held after all calls returned, or an exceeded step budget is reported with its "
-                "schedule. PARTIAL: termination under every fair schedule (livelock freedom of competing displacements) is not proved.",
+                "schedule. Props/C04Live.lean (retry loops): over the acceptor extended by rule L (after a failed validation the counter is loaded again "
+                "before the next first lock; checked on every replayed trace of /repo) the number of failed validations of any thread never exceeds "
+                "the number of completed resizes (retries_bounded_by_resizes), and in a stretch without a completed resize no validation fails "
+                "(no_resize_no_retry): ordinary operations of other threads never send a call back. PARTIAL: fairness of the spinlocks and "
+                "termination of competing displacements whose cuckoo paths keep being invalidated (path re-search, bounded per attempt) are not proved.",
         "design_ref": "DESIGN.md 6/C04, 12",
         "note": "Trusted as for C01. Exception exits are covered by K5 lock probes (C07), not by this model.",
     },
